@@ -2,6 +2,7 @@ CONSTANTS
   Cases <- CasesQ
 SPECIFICATION Spec
 INVARIANT Identity
+INVARIANT ChainLaw
 INVARIANT BlocksInside
 INVARIANT Emit
 CHECK_DEADLOCK FALSE
